@@ -51,7 +51,10 @@ master, pull from O with any stop revision) in a bound checkout that was in
 step with its master leaves local tip == master tip; a pull with a stop
 revision moves tips only to that revision; master written before local.
 
-Oracle P9: after every step the tree of each heavyweight checkout is based on
+Oracle P11: no working tree ever lists a revision twice among its parents
+(theorem run_tree_parents_nodup; the model follows WorkingTree4.set_parent_trees:
+the basis is kept, a pending merge is dropped when listed already or when it is
+not a head of the parent list).  Oracle P9: after every step the tree of each heavyweight checkout is based on
 the tip of its branch (theorem run_tree_basis_invariant).  P10: a commit through
 a bound checkout whose master is itself bound fails with
 CommitToDoubleBoundBranch and changes nothing.  Frame: an operation in one
@@ -99,7 +102,7 @@ THEOREMS = [
     "pull_other_local_only", "h2_symmetry", "bound_commit_master_first_h2",
     "run_master_first", "in_step_preserved", "run_in_step_invariant", "run_in_step_from_init",
     "run_in_step_after_update", "run_in_step_after_commit", "run_tree_basis_invariant",
-    "bound_commit_revnos", "run_bound_commit_revnos",
+    "bound_commit_revnos", "run_bound_commit_revnos", "step_tree_parents_nodup", "run_tree_parents_nodup",
 ]
 RULE = ("case = operation sequence over (M, H, G, L, O, P), compared after every step; distinct by op list; non-trivial = at least "
         "one successful commit through the bound checkout and one of (refused commit, --local commit, update that moves a tip, pull)")
@@ -319,6 +322,10 @@ def judge(op, before, ob, out, log, pre, viol, tag):
             before["local2"], before["parents"]["G"], ob["local2"], ob["parents"]["G"]), None))
     if k not in ("bM", "xM") and ob["mbound"] != before["mbound"]:
         viol.append((tag + "the binding of the master changed", None))
+    # P11: no working tree lists a revision twice among its parents
+    for who_, par_ in ob["parents"].items():
+        if len(set(par_)) != len(par_):
+            viol.append((tag + "tree %s lists a parent twice: %r" % (who_, par_), None))
     # P9: the tree of a heavyweight checkout is based on the tip of its branch
     if (ob["parents"]["H"][:1] or [NULL]) != [ob["local"][1]]:
         viol.append((tag + "the checkout's tree is based on %r but its branch tip is %s" % (ob["parents"]["H"][:1], ob["local"][1]), None))
